@@ -240,6 +240,26 @@ def main(tier):
                 run.violation("uncharged-work:host-global-computed-value", rep)
             else:
                 run.nontriv(("gcomp", rd, n))
+        # ---------- (B4) a host routine that evaluates a text through RunExpr again and again and tolerates its failures: work done by a
+        #      failing evaluation is work — the budget stops the routine after about budget / cost evaluations, failing or not
+        RX = [("1000d6 + nosuch()", 1000), ("1000d6 + 1", 1000), ("i=0; while i<500 { i=i+1 }; 1/0", 1500), ("[1,2,3][9] + 2000d2", 0), ("500d4; (", 0),
+              ("func f(){ 800d3 + [][0] }; f()", 800), ("&c = 700d5 + 'a'*'b'; c", 700)]
+        rl = [f"rxloop L30000 {r.getrandbits(128):032x} {hx(src)} 400" for src, cost in RX]
+        for (src, cost), (ln, g) in zip(RX, run.go_only("rxloop", rl, go_timeout=300, line_timeout=60)):
+            kv = dict(x.split("=", 1) for x in g.split() if "=" in x)
+            rep = {"host_routine": "RunExpr(text) up to 400 times, carrying on after failures", "text": src, "budget": 30000, "implementation": g[:300]}
+            run.count("rxloop.cases")
+            if g.startswith(("died", "panic")):
+                run.violation("rxloop:crash", rep)
+                continue
+            try:
+                dice, disp = int(kv["rolls"]) - 4 * int(kv["fates"]), int(kv["disp"])
+            except (KeyError, ValueError):
+                run.violation("rxloop:unexpected-output", rep)
+                continue
+            run.nontriv(("rxloop", src))
+            if dice > 30000 + 2 * max(cost, 1000) or disp > 30000 + 3000:
+                run.violation("uncharged-work:failed-sub-evaluation", dict(rep, dice=dice, dispatches=disp))
         # ---------- (C) parse budget
         pl = []
         for n in [10, 100, 1000, 5000]:
